@@ -30,6 +30,8 @@ thread_local! {
     static MAILBOX: RefCell<Vec<(&'static str, Box<dyn Any>)>> = RefCell::new(Vec::new());
 }
 pub fn mailbox_put(key: &'static str, v: Box<dyn Any>) {
+    // the mailbox's own storage is harness memory
+    let _g = crate::alloc::host_mode();
     MAILBOX.with(|m| m.borrow_mut().push((key, v)));
 }
 pub fn mailbox_take(key: &'static str) -> Option<Box<dyn Any>> {
@@ -50,7 +52,7 @@ pub fn cleanup() {
     }
 }
 
-fn peer(acts: u32, items: u32, may_drop: bool) -> PeerCfg {
+pub(crate) fn peer(acts: u32, items: u32, may_drop: bool) -> PeerCfg {
     PeerCfg { acts, items, may_drop }
 }
 
@@ -145,11 +147,11 @@ fn block_on_fw_fr_item() -> Vec<TaskDef> {
 
 // ------------------------------------------------------------------ high-level API
 
-fn ids_of<T: Pl>(v: &[T]) -> Vec<u32> {
+pub(crate) fn ids_of<T: Pl>(v: &[T]) -> Vec<u32> {
     v.iter().map(|x| x.id()).collect()
 }
 
-fn make_items<T: Pl>(n: usize, handle: u32) -> Vec<T> {
+pub(crate) fn make_items<T: Pl>(n: usize, handle: u32) -> Vec<T> {
     let mut v = Vec::with_capacity(n);
     let mut ids = vec![];
     for _ in 0..n {
@@ -161,14 +163,14 @@ fn make_items<T: Pl>(n: usize, handle: u32) -> Vec<T> {
     v
 }
 
-fn writer_to_host<T: Pl>(p: PeerCfg) -> StreamWriter<T> {
+pub(crate) fn writer_to_host<T: Pl>(p: PeerCfg) -> StreamWriter<T> {
     let (w, r) = unsafe { stream_new::<T>(T::stream_vt()) };
     let rh = r.take_handle();
     drop(r);
     host::with(|h| h.give_reader_to_host(rh, p.peer(Side::Reader)));
     w
 }
-fn reader_from_host<T: Pl>(p: PeerCfg, base: u32) -> StreamReader<T> {
+pub(crate) fn reader_from_host<T: Pl>(p: PeerCfg, base: u32) -> StreamReader<T> {
     let h = host::with(|h| h.host_writer_new(T::ELEM, false, p.peer(Side::Writer), base));
     StreamReader::<T>::new(h, T::stream_vt())
 }
@@ -303,11 +305,11 @@ fn two_tasks_pair_u8() -> Vec<TaskDef> {
 
 // ------------------------------------------------------------------ an operation that moves between tasks
 
-struct Migrating {
-    op: Option<Pin<Box<StreamWrite<'static, u8>>>>,
-    writer: *mut StreamWriter<u8>,
-    slot: u32,
-    handle: u32,
+pub(crate) struct Migrating {
+    pub(crate) op: Option<Pin<Box<StreamWrite<'static, u8>>>>,
+    pub(crate) writer: *mut StreamWriter<u8>,
+    pub(crate) slot: u32,
+    pub(crate) handle: u32,
 }
 impl Drop for Migrating {
     fn drop(&mut self) {
@@ -318,7 +320,7 @@ impl Drop for Migrating {
     }
 }
 
-struct PollShared(Rc<RefCell<Migrating>>, bool /* report first poll */);
+pub(crate) struct PollShared(pub(crate) Rc<RefCell<Migrating>>, pub(crate) bool /* report first poll */);
 impl Future for PollShared {
     type Output = Option<(StreamResult, Vec<u32>)>;
     fn poll(mut self: Pin<&mut Self>, cx: &mut Context<'_>) -> Poll<Self::Output> {
@@ -343,7 +345,7 @@ impl Future for PollShared {
     }
 }
 
-fn report_migrated(slot: u32, r: (StreamResult, Vec<u32>)) {
+pub(crate) fn report_migrated(slot: u32, r: (StreamResult, Vec<u32>)) {
     let what = match r.0 {
         StreamResult::Complete(n) => format!("complete:{n}"),
         StreamResult::Dropped => "dropped".into(),
@@ -354,7 +356,7 @@ fn report_migrated(slot: u32, r: (StreamResult, Vec<u32>)) {
 }
 
 /// Poll once, then give up the future without dropping the operation.
-struct Once<F>(F, bool);
+pub(crate) struct Once<F>(pub(crate) F, pub(crate) bool);
 impl<F: Future + Unpin> Future for Once<F> {
     type Output = Option<F::Output>;
     fn poll(mut self: Pin<&mut Self>, cx: &mut Context<'_>) -> Poll<Self::Output> {
@@ -462,6 +464,22 @@ fn migrate(kind_a: TaskKind, kind_b: TaskKind) -> Vec<TaskDef> {
     vec![a, b]
 }
 
+/// Start a stream write, poll it once and — if it did not complete — leave it
+/// registered with the current task (the operation is parked in the mailbox
+/// and destroyed when the execution is cleaned up).
+pub(crate) async fn leave_registered() {
+    let w = Box::into_raw(Box::new(writer_to_host::<u8>(peer(2, 3, true))));
+    let wref: &'static mut StreamWriter<u8> = unsafe { &mut *w };
+    let handle = wref.handle();
+    let slot = crate::machine::new_slot();
+    let shared = Rc::new(RefCell::new(Migrating { op: Some(Box::pin(wref.write(vec![1u8, 2]))), writer: w, slot, handle }));
+    if let Some(Some(_)) = Once(PollShared(shared.clone(), false), false).await {
+        return;
+    }
+    fact("left-registered", handle as u64, 0, vec![]);
+    mailbox_put("left-registered", Box::new(shared));
+}
+
 // ------------------------------------------------------------------ registry
 
 macro_rules! scn {
@@ -516,5 +534,6 @@ pub fn all() -> Vec<Scenario> {
     v.push(scn!(block_on_sr_u8, S, cfg_plain(), false));
     v.push(scn!(block_on_fw_fr_item, F, cfg_plain(), false));
     v.push(Scenario { name: "fpair_u8_cancel", props: F, cfg: ExecCfg { cancel_inject: true, may_stick: true, ..ExecCfg::default() }, build: fpair_u8, thorough_only: false });
+    v.extend(crate::scen2::all());
     v
 }
